@@ -182,12 +182,12 @@ CONFIGS = {
     'quick': [{}, {'retry': 40, 'hold': 9, 'idle_hold': 5}],
     'thorough': [{}, {'retry': 40, 'hold': 9, 'idle_hold': 5}],
 }
-DEPTH = {'quick': 6, 'thorough': 9}
+DEPTH = {'quick': 6, 'thorough': 10}
 DEVK = {'quick': 1, 'thorough': 2}
 DEV_KINDS = ('coop', 'lateclose', 'silent', 'refuse')
 HOSTILE_PHASE = None     # C18 plugs in its hostile single-message phase
 QUICK_DEV = (2, 10)      # quick tier: k deviations within the first n steps
-THOROUGH_DEV = (2, 16)   # thorough: the full menu makes unbounded k=2 a multi-hour run (~1 M executions per script)
+THOROUGH_DEV = (2, 20)   # thorough: the full menu makes unbounded k=2 a multi-hour run (~1 M executions per script)
 
 
 def run(tier, seed, prop=PROP, harness=None):
